@@ -5,6 +5,10 @@ import OjgVerif.JPMut.LemmasErr
 descent: the change IS the all-matches edit at one of the selected locations — `updAll m.eff [p] d` for ModifyOne with
 `p ∈ locsG σ x d` the first location (in the order modify.go pops them) at which the modifier reports a change; nothing
 changes only when the modifier reports no change at any selected location. -/
+set_option linter.unusedSimpArgs false
+set_option linter.unusedSectionVars false
+set_option linter.unusedVariables false
+
 namespace OjgVerif.JPMut
 open OjgVerif OjgVerif.JPath
 
